@@ -14,12 +14,12 @@ LEVEL_TEXT = ('Lean 4 theorems about an executable model of Spectrum._ufunc/_int
               'the smaller minimum and ends at the larger maximum; add/multiply (any commutative op) are commutative incl. the '
               'left/right sampling swap; scalar/vector operands act element-wise on the unchanged grid; the right operand is used '
               'in the left operand\'s unit. Model tied to the code by differential testing at ℚ.')
-LEVEL_NOTE = ('partial: invariance of the result under re-expressing *both* operands in another unit (`unit_invariance`) is proved only '
+LEVEL_NOTE = ('the scalar grid arithmetic of _interp_common (range, guard, number of intervals, linspace arguments) is regenerated as Gen/InterpGrid.lean and the grid theorems are about it. partial: invariance of the result under re-expressing *both* operands in another unit (`unit_invariance`; see ASSUMPTIONS for its scope) is proved only '
               'for the hand-over step (`unit_handover_partial`); the full statement, "operands unchanged" and "result is a new object" '
               'are evaluated on the implementation by the oracle in every run (all 4 units, snapshots). Trusted: interp1d(linear), '
               'np.linspace, np.clip.')
 TECHNIQUE = 'Lean 4 proof (unfolding + list lemmas) about a hand model + differential correspondence at ℚ'
-GEN = ['Units']
+GEN = ['Units', 'InterpGrid']
 OPS = ['C13']
 RULE = ('pairs of dyadic spectra (2..8 samples each; identical / nested / overlapping / touching / disjoint ranges; uniform and '
         'non-uniform grids), operators add/subtract/multiply/divide, sampling min/left/right/float, fill 0/1.5/2, all 16 wavelength-unit '
@@ -31,7 +31,10 @@ UNPROVEN = ['unit_invariance at full strength (rescaling both operands\' wavelen
             'operands unchanged / result is a new object: snapshots in the correspondence (no heap model)',
             'quadratic/cubic interpolation methods (spline kernels are not modelled); power between two spectra (irrational values)',
             ]
-ASSUMPTIONS = ['the documented two-element (below, above) fill_value raises ValueError in spectrum-spectrum arithmetic on the current code (fill_value * np.ones(n)); probed and counted (tag fill-pair:…), reported, not modelled',
+ASSUMPTIONS = ['unit invariance is claimed — and checked by the oracle in all 4 units — for unitless spectra with any fill value and for density spectra with fill 0 (add/subtract/multiply): a numeric fill value is a number in the left operand\'s value unit per ITS wavelength unit, so for densities a fixed non-zero fill is not unit-invariant by construction (e.g. 3.5 in nm vs 2.0015 for the same operands in um); divide needs a non-zero fill and is therefore checked for unitless spectra only',
+               'operands with different value units (photlam + flam): the code combines the raw numbers and labels the result with the left operand\'s unit (so a+b and b+a carry different labels); generated (tag value-units:mixed), model and oracle follow the code; reported as an observation',
+               'quadratic/cubic interpolation (tag method:…): oracle only, under the method-independent laws (grid, commutativity, unit invariance, operands unchanged); Blackbody operands and grids of more than 6000 points are oracle-only too',
+               'the documented two-element (below, above) fill_value raises ValueError in spectrum-spectrum arithmetic on the current code (fill_value * np.ones(n)); probed and counted (tag fill-pair:…), reported, not modelled',
                'for scalar/vector operands the result shares its wavelength array with the operand ((s*2.0).wave is s.wave): counted (tag result-grid-aliases-operand); the result is a new Spectrum object and no lentil call mutates the array in place, so it is reported as an observation, not as a violation of "the result is a new spectrum"',
                'a numeric sampling is below 1e9 x the union span (beyond that the 1e-9·Δ guard of _interp_common collapses the grid to one point; model and code agree there)',
                'both operands have at least two samples; division avoids zero denominators (values and fill of the divisor are non-zero)']
@@ -106,8 +109,14 @@ def generate(rng, tier):
             if float(fill).is_integer() and rng.integers(0, 3): fk = 'default' if fill == 0 else 'int'
             if fk == 'pair': fill = 0.0
             elif fn != 'divide' and rng.integers(0, 4) == 0: fill, fk = 0.0, 'default'
+            # different value units (photlam + flam …): the code combines the raw numbers and keeps the left label (observation)
+            vu2 = vu
+            if vu is not None and rng.integers(0, 4) == 0: vu2 = [x for x in ('photlam', 'flam', 'wlam') if x != vu][int(rng.integers(0, 2))]
+            # spline interpolation of the operands: every law but "linear interpolant" applies
+            method = 'linear'
+            if min(len(w1), len(w2)) >= 4 and rng.integers(0, 8) == 0: method = ['quadratic', 'cubic'][int(rng.integers(0, 2))]
             if fn != 'divide' and rng.integers(0, 25) == 0: fk, fill = 'pair', 0.0       # documented (below, above) fill pair (probe), main call with default fill
-            out.append({'kind': 'pair', 'form': ['method', 'method', 'method+kw', 'operator'][int(rng.integers(0, 4))], 'fn': fn, 'w1': w1, 'v1': v1, 'w2': w2, 'v2': v2, 'u1': u1, 'u2': u2, 'vu': vu,
+            out.append({'kind': 'pair', 'form': ['method', 'method', 'method+kw', 'operator'][int(rng.integers(0, 4))], 'fn': fn, 'w1': w1, 'v1': v1, 'w2': w2, 'v2': v2, 'u1': u1, 'u2': u2, 'vu': vu, 'vu2': vu2, 'method': method,
                         'sampling': sm, 'fill': fill, 'fk': fk, 'rel': rel, 'dt1': dt1, 'dt2': dt2})
         elif t == 6:
             w = inc_grid(rng, int(rng.integers(2, 9)), bits=2)
@@ -126,6 +135,7 @@ def generate(rng, tier):
     return out
 
 def signature(c):
+    if c['kind'] == 'pair' and (c.get('method', 'linear') != 'linear' or c.get('vu2', c['vu']) != c['vu']): return f"pair* {c['method']} {c['vu']}/{c.get('vu2')} {c['fn']} {c['sampling']} {c['u1']} {c['u2']} {c['w1'][:2]} {c['w2'][:2]}"
     if c['kind'] == 'bb': return f"bb {c['fn']} {c['u1']} {c['ub']} {c['vu']} {c['temp']} {c['bb_left']} {c['w1'][:2]} {len(c['wb'])}"
     if c['kind'] == 'pair': return f"pair {c.get('dt1')}/{c.get('dt2')} {c['fn']} {c['sampling']} {c['u1']} {c['u2']} {c['vu']} {len(c['w1'])} {len(c['w2'])} {c['w1'][:2]} {c['w2'][:2]}"
     return f"{c['kind']} {c['fn']} {len(c['w1'])} {c.get('c', len(c.get('v', [])))} {c['w1'][:2]}"
@@ -136,7 +146,7 @@ def tags(c):
     if 'fk' in c: t.append('fill:' + c['fk'])
     t.append('dtype:' + c.get('dt1', 'float') + ('/' + c['dt2'] if 'dt2' in c else ''))
     t += NOTES.pop(id(c), [])
-    if c['kind'] == 'pair': t += ['form:' + c.get('form', 'method')]
+    if c['kind'] == 'pair': t += ['form:' + c.get('form', 'method'), 'method:' + c.get('method', 'linear'), 'value-units:' + ('same' if c.get('vu2', c['vu']) == c['vu'] else 'mixed')]
     if c['kind'] == 'pair': t += ['rel:' + c['rel'], 'sampling:' + str(c['sampling'] if isinstance(c['sampling'], str) else 'float'), 'units:' + ('same' if c['u1'] == c['u2'] else 'mixed')]
     return t
 
@@ -198,8 +208,8 @@ OPER = {'add': operator.add, 'subtract': operator.sub, 'multiply': operator.mul,
 def _call(s1, fn, other, form='method', **kw):
     if fn == 'rmul': return other * s1
     # the real operators (+ - * / **) take no options: usable when sampling and fill are the defaults
-    if form == 'operator' and kw.get('sampling', 'min') == 'min' and 'fill_value' not in kw: return OPER[fn](s1, other)
-    if form == 'method+kw': kw = dict(kw, method='linear')
+    if form == 'operator' and kw.get('sampling', 'min') == 'min' and 'fill_value' not in kw and 'method' not in kw: return OPER[fn](s1, other)
+    if form == 'method+kw' and 'method' not in kw: kw = dict(kw, method='linear')
     return getattr(s1, fn)(other, **kw)
 
 def impl(c):
@@ -208,7 +218,7 @@ def impl(c):
         warnings.simplefilter('ignore')
         k = c['kind']
         if k == 'pair':
-            s1, s2 = _mk(R, c['w1'], c['v1'], c['u1'], c['vu'], c.get('dt1', 'float')), _mk(R, c['w2'], c['v2'], c['u2'], c['vu'], c.get('dt2', 'float'))
+            s1, s2 = _mk(R, c['w1'], c['v1'], c['u1'], c['vu'], c.get('dt1', 'float')), _mk(R, c['w2'], c['v2'], c['u2'], c.get('vu2', c['vu']), c.get('dt2', 'float'))
             o = {'s1': _out(s1), 's2': _out(s2)}
             g = guard()
             with g:
@@ -236,6 +246,8 @@ def _pair(c, R, s1, s2, o):
             smp = c['sampling'] if isinstance(c['sampling'], str) else c['sampling'] * float(MPU['nm'] / MPU[c['u1']])
             o['sampling'] = smp
             kw = dict({'sampling': smp}, **_fillkw(c))
+            if c.get('method', 'linear') != 'linear': kw['method'] = c['method']
+            mk = {'method': c['method']} if c.get('method', 'linear') != 'linear' else {}
             if c.get('fk') == 'pair':
                 try:
                     s1.add(s2, fill_value=(0.5, 2.0)); o['pair'] = 'accepted'
@@ -246,15 +258,15 @@ def _pair(c, R, s1, s2, o):
             o['res'] = _out(r); o['new'] = (r is not s1) and (r is not s2) and not np.shares_memory(r.value, s1.value) and not np.shares_memory(r.value, s2.value)
             o['unchanged'] = (_snap(s1) == b1, _snap(s2) == b2)
             sw = {'left': 'right', 'right': 'left'}.get(c['sampling'], c['sampling']) if isinstance(c['sampling'], str) else c['sampling'] * float(MPU['nm'] / MPU[c['u2']])
-            if c['fn'] in ('add', 'multiply') and (c['vu'] is None or c['u1'] == c['u2']):
-                r2 = _call(s2, c['fn'], s1, sampling=sw, **_fillkw(c))
+            if c['fn'] in ('add', 'multiply') and (c['vu'] is None or c['u1'] == c['u2']) and c.get('vu2', c['vu']) == c['vu']:
+                r2 = _call(s2, c['fn'], s1, sampling=sw, **_fillkw(c), **mk)
                 r2.to(c['u1'])
                 o['swapped'] = _out(r2)
             o['units'] = {}
             for u in W:
                 a, b = s1.copy(), s2.copy(); a.to(u); b.to(u)
                 smu = c['sampling'] if isinstance(c['sampling'], str) else c['sampling'] * float(MPU['nm'] / MPU[u])
-                o['units'][u] = _out(_call(a, c['fn'], b, sampling=smu, **_fillkw(c)))
+                o['units'][u] = _out(_call(a, c['fn'], b, sampling=smu, **_fillkw(c), **mk))
             return o
 
 def _single(c, R, s1):
@@ -276,7 +288,7 @@ def requests(c, io):
     if '_harness_exc' in io or 'guard' in io: return []
     k = c['kind']
     if k == 'bb': return []
-    if k == 'pair' and len(io['res']['wave']) > 6000: return []      # very fine grids: oracle only (grid laws + pointwise recomputation)
+    if k == 'pair' and (len(io['res']['wave']) > 6000 or c.get('method', 'linear') != 'linear'): return []      # very fine grids: oracle only (grid laws + pointwise recomputation)
     if k == 'pair':
         sp = lambda o: {'wave': qs(o['wave']), 'value': qs(o['value']), 'wu': o['wu'], 'vu': o['vu']}
         sm = c['sampling'] if isinstance(c['sampling'], str) else q(io['sampling'])
@@ -392,6 +404,7 @@ def oracle(c, io):
     for e in (w1[0], w1[-1], w2[0], w2[-1]):
         near_edge |= (np.abs(g - e) < 2 * tol) & (np.abs(g - e) > 0)
     got = np.array(r['value'])
+    if c.get('method', 'linear') != 'linear': near_edge[:] = True      # splines: the pointwise-linear law does not apply; all other laws below do
     bad = ~near_edge & ~((got == want) | (np.abs(got - want) <= 1e-9 * np.maximum(np.abs(got), np.abs(want)) + atol))
     if bad.any():
         i = int(np.argmax(bad))
